@@ -21,6 +21,7 @@ fn dispatch(op: &str, args: &[String]) -> String {
         "accept" => ops_xml::accept(args),
         "parse" => ops_xml::parse(args),
         "pipeline" => ops_xml::pipeline(args),
+        "pipelinek" => ops_xml::pipelinek(args),
         "roundtrip" => ops_xml::roundtrip(args),
         "print" => ops_xml::print(args),
         "sinks" => ops_xml::sinks(args),
